@@ -142,6 +142,8 @@ def obs_property(families, life=True):
     def run(report, tier, seed):
         from . import observe
         covs = [("views", observe.run(report, tier, seed, families))]
+        if report.prop in ("C15", "C17"):
+            covs.append(("send_story", observe.run_send(report, tier, seed)))
         if life:
             covs.append(("life", pipeline.run_life_check(report, life_plans(tier), seed, tier, observe=True)))
         cov = combine(covs)
